@@ -11,3 +11,5 @@ import Amqp.Frame
 import Amqp.Gen.Codes
 import Amqp.Codec
 import Amqp.Reasm
+import Amqp.Handles
+import Amqp.LinkSplit
